@@ -8,6 +8,15 @@
    The faithful model (JsDeps/Model.v: the listener event by event + an instrumented ES5-fragment evaluator) does
    NOT satisfy the text: the _refuted theorems below are kernel-computed counterexamples, each replayed on the real
    resolve_dependencies and on node by corpus/C31/known_findings.json. *)
+(* READING THE POSITIVE THEOREMS.  Their hypothesis [run inp n lib body = Ok c s] (resp. run_ref, run_parts) speaks of the
+   MODEL evaluator of JsDeps/Model.v.  That evaluator answers [Unsup] on operations outside its semantics (numeric +
+   involving booleans/undefined, a character of a string, properties of closures, ...), [NoFuel] when the bound is
+   exhausted and [Throw] on a JavaScript exception; on those programs the theorems say nothing (the analysis still does
+   not fail: the C31_total_* theorems have no evaluation hypothesis).  "Every program of the fragment" therefore means
+   "every program of the fragment on which the model evaluator terminates normally".  Membership in a fragment does not
+   imply evaluator support; the check reports how often that happens (evidence sample model_evaluator_support) and
+   compares the evaluator with node whenever it does answer.  Whole-object uses of inputs that JavaScript accepts
+   (inputs + "s") are supported: objects stringify without reading a field. *)
 From Coq Require Import List NArith.
 From SF Require Import Base.Str JsDeps.Model JsDeps.Proofs JsDeps.Sound JsDeps.Funs JsDeps.Combined.
 Import ListNotations.
